@@ -37,7 +37,10 @@ static struct frame framerow[2][RN]; static int nframerow;
 static struct macroparam paramrow[24][8]; static int nparamrow;
 static struct macroarg argrow[40][8]; static int nargrow;
 static char charrow[24][96]; static int ncharrow;
-static struct mapkey kpool[4][64]; static void *vpool[4][64]; static int nkp, nvp;
+#ifndef MAPCAP
+#define MAPCAP 64      /* largest initial hash-table capacity in the sources (props/parselib.py:mapcap reads it from the tree) */
+#endif
+static struct mapkey kpool[4][MAPCAP]; static void *vpool[4][MAPCAP]; static int nkp, nvp;
 void *arrayadd(struct array *a, size_t n) {
 	if (!a->val) {
 		if (n == sizeof(struct token)) { if (ntokrow >= 40) PATH_END(); a->val = tokrow[ntokrow++]; a->cap = sizeof tokrow[0]; }
@@ -55,8 +58,8 @@ void arrayaddbuf(struct array *a, const void *src, size_t n) {
 }
 void *arraylast(struct array *a, size_t n) { return (char *)a->val + a->len - n; }
 void *xreallocarray(void *b, size_t n, size_t m) {
-	if (!b && m == sizeof(struct mapkey) && n <= 64 && nkp < 4) return kpool[nkp++];
-	if (!b && m == sizeof(void *) && n <= 64 && nvp < 4) return vpool[nvp++];
+	if (!b && m == sizeof(struct mapkey) && n <= MAPCAP && nkp < 4) return kpool[nkp++];
+	if (!b && m == sizeof(void *) && n <= MAPCAP && nvp < 4) return vpool[nvp++];
 	if (!b && m == sizeof(struct macroarg)) { if (n > 8 || nargrow >= 40) PATH_END(); return argrow[nargrow++]; }
 	PATH_END(); return 0;
 }
